@@ -200,7 +200,7 @@ Lemma merge_keeps_appended glob : forall branch G X,
                 (forall e, In e branch -> e_state e = Removed -> In e X').
 Proof.
   induction branch as [|e r IH]; intros G X HM Hcov; simpl.
-  - exists G, []. rewrite app_nil_r. split; auto. split; auto; try (intros e []).
+  - exists G, []. rewrite app_nil_r. repeat split; auto; try (intros e []).
   - assert (Hr : forall x, In x r -> covered glob x) by (intros x Hx; apply Hcov; right; exact Hx).
     destruct (Hcov e (or_introl eq_refl)) as [Hrem|[Herr|(g0 & Hg0 & Hp & Hs)]].
     + (* Removed: appended *)
